@@ -177,20 +177,3 @@ func TestD8DoubleDashTab(t *testing.T) {
 		}
 	}
 }
-
-// D9 candidate: a mandatory option group satisfied by the environment must stay satisfied when `--` is inserted (C09, C12)
-func TestD9MandatoryGroupEnvAfterDoubleDash(t *testing.T) {
-	os.Setenv("VERIF_D9_O", "E")
-	defer os.Unsetenv("VERIF_D9_O")
-	for _, argv := range [][]string{{"x"}, {"--", "x"}} {
-		ran, err, p := runApp(t, func(app *Cli) {
-			app.Spec = "OPTIONS X"
-			app.Strings(StringsOpt{Name: "o out", EnvVar: "VERIF_D9_O"})
-			app.BoolOpt("a", false, "")
-			app.StringArg("X", "", "")
-		}, argv)
-		if p != nil || err != nil || !ran {
-			t.Errorf("argv %q: panic=%v err=%v ran=%v", argv, p, err, ran)
-		}
-	}
-}
